@@ -4,7 +4,6 @@ import json, os, sys
 HERE = os.path.dirname(os.path.dirname(os.path.abspath(__file__))); sys.path.insert(0, HERE)
 from lemmas import registry as R
 NA = {
- 'C20': 'RISC-V JIT: deciding it needs an RV64GC ISA semantics (incl. compressed encodings) for the 1300-line scalar emitter plus 1245 lines of hand-written assembly; no RISC-V hardware or emulator exists in this sandbox to validate such a model; unlike C19 (where a per-instruction claim was built) no RISC-V model was built in the time available (DESIGN.md section 7)',
 }
 PENDING = 'check not built yet in this session (breadth-first build in progress); no claim is made'
 props = [json.loads(l) for l in open(os.path.join(HERE, 'properties.jsonl'))]
@@ -25,6 +24,7 @@ M = dict(version=1, setup_cmd='./setup.sh',
                baseline_off_cmd='cmake --build /repo/_build && /repo/_build/randomx-tests', source_commits=[], add_only=True),
     engines=[dict(name='irsym', path='/verif/engine/irsym.py', serves_properties=sorted(R.PROPS), kind_free_text='own symbolic interpreter for clang-14 LLVM IR producing z3 terms; forking by re-execution; chunk/array memory; C++ EH'),
              dict(name='a64sem', path='/verif/engine/a64sem.py', serves_properties=[p for p in ('C19',) if p in R.PROPS], kind_free_text='AArch64 subset semantics for the ARM64 back-end output (Arm ARM transcription; decoder cross-checked against llvm-objdump, semantics not validated on hardware)'),
+             dict(name='rv64sem', path='/verif/engine/rv64sem.py', serves_properties=[p for p in ('C20',) if p in R.PROPS], kind_free_text='RV64GC subset semantics for the scalar RISC-V back-end output (ISA manual transcription; decoder cross-checked against llvm-objdump, semantics not validated on hardware)'),
              dict(name='x86sem', path='/verif/engine/x86sem.py', serves_properties=[p for p in ('C04', 'C08', 'C09', 'C06', 'C01') if p in R.PROPS], kind_free_text='x86-64 subset semantics for JIT output and the hand-written templates, validated against the host CPU')],
     checks=checks, not_applicable=na,
     notes='Every check regenerates IR/bytes from /repo on each run. Exit 0 = all claimed lemmas discharged; 1 = replayed violation (VIOLATION line); 2 = inconclusive/engine error (never reported as success or as violation).')
